@@ -7,6 +7,12 @@ BASE_OFF = ("cd /repo && env -u GIN_CONFIG_VERIF /venv/bin/python -m pytest -ra 
 
 CHECKS = {
 
+  'C03': ('model_checking',
+          'TLA+ spec GinStmt.tla (statement parser transcribed from config_parser.py: queue, lookahead, within-block flag, selector whitespace check, key splitting; token rendering of statement templates under layouts) model-checked with TLC; every TLC-built text rendered, tokenised by CPython and parsed by gin; CPython-tokenised random documents validated by TLC',
+          'TLC checks for every text of up to 2-3 statements from 25 templates under every layout choice that the transcribed parser recovers exactly what the text spells (malformed selectors / statements rejected); each text is rendered with further layout freedom, its CPython token stream must equal the model\'s rendering (this binding already corrected the model twice: DEDENT placement, the // token), the real ConfigParser statement stream must equal the spelled statements and equal statements must give equal config_str across layouts; random richer documents go the other way through TLC.',
+          'Oracle for tokens: CPython tokenize. Names are abstracted to three identifiers.',
+          'DESIGN.md section 6 C03'),
+
   'C02': ('model_checking',
           'TLA+ spec GinSyntax.tla (cursor parser transcribed from config_parser.py vs split-based reference grammar) model-checked with TLC over all token strings up to a bound; TLC-exported token strings concretised and parsed by gin; CPython-tokenised generated texts validated by TLC against the spec parser',
           'TLC checks in every state (every token string up to length 4-6 over 7-18 token kinds) that the transcribed recursive-descent value parser accepts exactly the literal grammar with the grammar\'s unique value and is layout-invariant; all explored strings up to length 3 plus random strings up to length 7 are concretised (lexeme and layout pools) and parsed by the real gin, compared by outcome class, shape and exact equality with ast.literal_eval; generated literals to depth 3 and near-misses are tokenised by CPython and the real outcome validated by TLC.',
